@@ -156,6 +156,22 @@ def _pair(draw, tier):
             base["cond"] = [c[0], c[1], kids]
         elif not A.has_kind(c, "const"):
             base["cond"] = ["sub", "entity", [v], c]
+    if len(base["vars"]) <= 2 and not base.get("earlier_queries_sharing_comparisons") and chance(draw, 1, 8):
+        # a universally quantified operand next to the drawn condition: or_(for_all(u, c(x, u)), d) / and_(d, for_all(u, c))
+        from ..strategies import Ctx, leaf
+        n_ = len(base["ents"])
+        ents_ok = [i for i, r in enumerate(base["ents"]) if r.get("cls") not in ("Other", "Foreign")]
+        if ents_ok:
+            u = len(base["vars"])
+            base["doms"].append(list(draw(st.permutations(ents_ok)))[:draw(st.integers(1, min(3, len(ents_ok))))])
+            base["vars"].append({"dom": len(base["doms"]) - 1, "decl": "let", "type": "Ent"})
+            ctx_ = Ctx(_cfg(tier), base["ents"], u + 1)
+            x_ = draw(st.integers(0, u - 1))
+            fa = ["forall", u, leaf(draw, ctx_, [x_, u])]
+            parts = [fa, base["cond"]] if draw(st.booleans()) else [base["cond"], fa]
+            base["cond"] = [draw(st.sampled_from(["or", "or", "and"])), "nary", parts]
+            base["split_top"] = False
+            base["has_forall"] = True
     var = copy.deepcopy(base)
     names = []
     sel_map = list(range(len(base["sel"])))       # variant position -> base position
@@ -215,6 +231,9 @@ def check(case) -> Outcome:
     classes = ["rw_" + r for r in sorted(set(case["rewrites"]))] + [f for f in feats if f in ("vars1", "vars2", "vars3",
                                                                                              "or_diff_vars", "not",
                                                                                              "comparison_objects_used_in_earlier_queries")]
+    if base.get("has_forall"):
+        classes.append("universally_quantified_operand")
+        feats.append("universally_quantified_operand_under_" + base["cond"][0])
     try:
         got_b, _ = run_query(base, objs, times=2)
     except Exception as e:
